@@ -1,3 +1,883 @@
-//! C06 — not yet built
-use crate::ctx::Ctx;
-pub fn run(c: &mut Ctx) { c.notes.push("C06: not implemented".into()); }
+//! C06 — Standard security handler agrees with ISO 32000 algorithms.
+//!
+//! `refimpl` is an INDEPENDENT implementation of the standard security handler, written from
+//! the algorithm text of ISO 32000-1:2008 §7.6 (Algorithms 1–7) and ISO 32000-2:2020 §7.6
+//! (Algorithms 1.A, 2.A, 2.B, 8–13) directly on the md-5 / sha2 / aes crates plus an own RC4 and
+//! own CBC chaining.  It shares no code with lopdf (lopdf's `Object` types are used only as a
+//! container for documents).  It is also the oracle of C05.
+use crate::codec::*;
+use crate::ctx::{guard, Ctx};
+use crate::rng::Rng;
+use super::c05::{self, Config, Ver};
+use lopdf::{Dictionary, Document, Object, ObjectId, Stream, StringFormat};
+use serde_json::json;
+
+pub mod refimpl {
+    use aes::cipher::{generic_array::GenericArray, BlockDecrypt, BlockEncrypt, KeyInit};
+    use lopdf::{Dictionary, Document, Object, ObjectId};
+    use md5::{Digest, Md5};
+    use sha2::{Sha256, Sha384, Sha512};
+
+    /// ISO 32000-1 Algorithm 2 step (a): the 32-byte padding string
+    pub const PAD: [u8; 32] = [
+        0x28, 0xBF, 0x4E, 0x5E, 0x4E, 0x75, 0x8A, 0x41, 0x64, 0x00, 0x4E, 0x56, 0xFF, 0xFA, 0x01, 0x08,
+        0x2E, 0x2E, 0x00, 0xB6, 0xD0, 0x68, 0x3E, 0x80, 0x2F, 0x0C, 0xA9, 0xFE, 0x64, 0x53, 0x69, 0x7A,
+    ];
+
+    pub fn md5(data: &[u8]) -> Vec<u8> { Md5::digest(data).to_vec() }
+    pub fn sha256(data: &[u8]) -> Vec<u8> { Sha256::digest(data).to_vec() }
+    pub fn sha384(data: &[u8]) -> Vec<u8> { Sha384::digest(data).to_vec() }
+    pub fn sha512(data: &[u8]) -> Vec<u8> { Sha512::digest(data).to_vec() }
+
+    /// RC4 (own implementation: KSA + PRGA as in the original description)
+    pub fn rc4(key: &[u8], data: &[u8]) -> Vec<u8> {
+        assert!(!key.is_empty());
+        let mut s: Vec<u8> = (0..=255u8).collect();
+        let mut j: usize = 0;
+        for i in 0..256 {
+            j = (j + s[i] as usize + key[i % key.len()] as usize) % 256;
+            s.swap(i, j);
+        }
+        let (mut i, mut j) = (0usize, 0usize);
+        let mut out = Vec::with_capacity(data.len());
+        for b in data {
+            i = (i + 1) % 256;
+            j = (j + s[i] as usize) % 256;
+            s.swap(i, j);
+            out.push(b ^ s[(s[i] as usize + s[j] as usize) % 256]);
+        }
+        out
+    }
+
+    pub fn aes_enc_block(key: &[u8], block: &[u8]) -> Vec<u8> {
+        let mut b = GenericArray::clone_from_slice(block);
+        match key.len() {
+            16 => aes::Aes128::new(GenericArray::from_slice(key)).encrypt_block(&mut b),
+            32 => aes::Aes256::new(GenericArray::from_slice(key)).encrypt_block(&mut b),
+            _ => panic!("aes key length"),
+        }
+        b.to_vec()
+    }
+    pub fn aes_dec_block(key: &[u8], block: &[u8]) -> Vec<u8> {
+        let mut b = GenericArray::clone_from_slice(block);
+        match key.len() {
+            16 => aes::Aes128::new(GenericArray::from_slice(key)).decrypt_block(&mut b),
+            32 => aes::Aes256::new(GenericArray::from_slice(key)).decrypt_block(&mut b),
+            _ => panic!("aes key length"),
+        }
+        b.to_vec()
+    }
+    /// CBC, no padding; `data.len()` must be a multiple of 16
+    pub fn cbc_enc(key: &[u8], iv: &[u8], data: &[u8]) -> Vec<u8> {
+        assert!(data.len() % 16 == 0 && iv.len() == 16);
+        let mut prev = iv.to_vec();
+        let mut out = Vec::with_capacity(data.len());
+        for blk in data.chunks(16) {
+            let x: Vec<u8> = blk.iter().zip(prev.iter()).map(|(a, b)| a ^ b).collect();
+            prev = aes_enc_block(key, &x);
+            out.extend_from_slice(&prev);
+        }
+        out
+    }
+    pub fn cbc_dec(key: &[u8], iv: &[u8], data: &[u8]) -> Vec<u8> {
+        assert!(data.len() % 16 == 0 && iv.len() == 16);
+        let mut prev = iv.to_vec();
+        let mut out = Vec::with_capacity(data.len());
+        for blk in data.chunks(16) {
+            let d = aes_dec_block(key, blk);
+            out.extend(d.iter().zip(prev.iter()).map(|(a, b)| a ^ b));
+            prev = blk.to_vec();
+        }
+        out
+    }
+
+    /// "Pad or truncate the password string to exactly 32 bytes"
+    pub fn pad_pw(pw: &[u8]) -> Vec<u8> {
+        let mut v: Vec<u8> = pw.iter().take(32).cloned().collect();
+        let need = 32 - v.len();
+        v.extend_from_slice(&PAD[..need]);
+        v
+    }
+
+    /// Algorithm 2: computing a file encryption key (R2–R4). `p` is the P integer as stored.
+    pub fn alg2(pw: &[u8], o: &[u8], p: i64, id0: &[u8], r: i64, key_bytes: usize, encrypt_metadata: bool) -> Vec<u8> {
+        let mut input = pad_pw(pw);                                   // a, b
+        input.extend_from_slice(o);                                   // c
+        input.extend_from_slice(&(p as u32).to_le_bytes());           // d: 32-bit unsigned, low-order byte first
+        input.extend_from_slice(id0);                                 // e
+        if r >= 4 && !encrypt_metadata { input.extend_from_slice(&[0xff; 4]); }   // f
+        let mut h = md5(&input);                                      // g
+        let n = if r == 2 { 5 } else { key_bytes };
+        if r >= 3 { for _ in 0..50 { h = md5(&h[..n]); } }            // h
+        h[..n].to_vec()                                               // i
+    }
+
+    /// RC4 key of Algorithm 3 steps a–d
+    fn owner_rc4_key(owner_pw: &[u8], r: i64, key_bytes: usize) -> Vec<u8> {
+        let mut h = md5(&pad_pw(owner_pw));
+        if r >= 3 { for _ in 0..50 { h = md5(&h); } }
+        let n = if r == 2 { 5 } else { key_bytes };
+        h[..n].to_vec()
+    }
+    fn xor_key(key: &[u8], i: u8) -> Vec<u8> { key.iter().map(|b| b ^ i).collect() }
+
+    /// Algorithm 3: computing the O value. `owner_pw = None` ("no owner password") uses the user password.
+    pub fn alg3(owner_pw: Option<&[u8]>, user_pw: &[u8], r: i64, key_bytes: usize) -> Vec<u8> {
+        let k = owner_rc4_key(owner_pw.unwrap_or(user_pw), r, key_bytes);
+        let mut x = rc4(&k, &pad_pw(user_pw));
+        if r >= 3 { for i in 1..=19u8 { x = rc4(&xor_key(&k, i), &x); } }
+        x
+    }
+    /// Algorithm 4 (R2) / Algorithm 5 (R3, R4): the U value; only the first 16 bytes are significant for R≥3
+    pub fn alg4_5(key: &[u8], id0: &[u8], r: i64) -> Vec<u8> {
+        if r == 2 { return rc4(key, &PAD); }
+        let mut input = PAD.to_vec();
+        input.extend_from_slice(id0);
+        let mut x = rc4(key, &md5(&input));
+        for i in 1..=19u8 { x = rc4(&xor_key(key, i), &x); }
+        x
+    }
+
+    #[derive(Clone, Debug)]
+    pub struct EncDict {
+        pub v: i64, pub r: i64, pub length_bits: Option<i64>, pub p: i64, pub encrypt_metadata: bool,
+        pub o: Vec<u8>, pub u: Vec<u8>, pub oe: Vec<u8>, pub ue: Vec<u8>, pub perms: Vec<u8>,
+        /// CF: name -> CFM name
+        pub cf: Vec<(Vec<u8>, Vec<u8>)>,
+        pub stmf: Option<Vec<u8>>, pub strf: Option<Vec<u8>>,
+    }
+    impl EncDict {
+        pub fn key_bytes(&self) -> usize {
+            match self.v { 1 => 5, 2 | 3 => (self.length_bits.unwrap_or(40) / 8) as usize, 4 => 16, _ => 32 }
+        }
+    }
+
+    /// Algorithm 6: authenticating the user password → the file encryption key
+    pub fn alg6(d: &EncDict, id0: &[u8], pw: &[u8]) -> Option<Vec<u8>> {
+        let key = alg2(pw, &d.o, d.p, id0, d.r, d.key_bytes(), d.encrypt_metadata);
+        let u = alg4_5(&key, id0, d.r);
+        let ok = if d.r == 2 { u == d.u } else { d.u.len() >= 16 && u[..16] == d.u[..16] };
+        if ok { Some(key) } else { None }
+    }
+    /// Algorithm 7: authenticating the owner password → the file encryption key
+    pub fn alg7(d: &EncDict, id0: &[u8], pw: &[u8]) -> Option<Vec<u8>> {
+        let k = owner_rc4_key(pw, d.r, d.key_bytes());
+        let user_pw = if d.r == 2 { rc4(&k, &d.o) } else {
+            let mut x = d.o.clone();
+            for i in (0..=19u8).rev() { x = rc4(&xor_key(&k, i), &x); }
+            x
+        };
+        alg6(d, id0, &user_pw)
+    }
+
+    /// Algorithm 2.B: computing a hash (R6); R5 = SHA-256 of the input.
+    pub fn alg2b(r: i64, pw: &[u8], salt: &[u8], udata: &[u8]) -> Vec<u8> {
+        let mut input = pw.to_vec(); input.extend_from_slice(salt); input.extend_from_slice(udata);
+        let mut k = sha256(&input);
+        if r == 5 { return k; }
+        let mut round: u32 = 0;
+        loop {
+            // a) K1 = 64 repetitions of (password ‖ K ‖ [U])
+            let mut k0 = pw.to_vec(); k0.extend_from_slice(&k); k0.extend_from_slice(udata);
+            let mut k1 = Vec::with_capacity(k0.len() * 64);
+            for _ in 0..64 { k1.extend_from_slice(&k0); }
+            // b) AES-128 CBC no padding, key = K[0..16], IV = K[16..32]
+            let e = cbc_enc(&k[..16], &k[16..32], &k1);
+            // c) first 16 bytes of E as unsigned big-endian integer mod 3
+            let mut m: u32 = 0;
+            for b in &e[..16] { m = (m * 256 + *b as u32) % 3; }
+            // d)
+            k = match m { 0 => sha256(&e), 1 => sha384(&e), _ => sha512(&e) };
+            // e) rounds 0..63 always; from round 64 on stop when last byte of E <= round - 32
+            round += 1;                              // `round` = number of rounds done
+            if round >= 64 && (*e.last().unwrap() as u32) <= round - 32 { break; }
+        }
+        k[..32].to_vec()
+    }
+    fn trunc127(pw: &[u8]) -> &[u8] { if pw.len() > 127 { &pw[..127] } else { pw } }
+
+    /// Algorithm 8: U and UE. `salts` = validation salt ‖ key salt (16 bytes)
+    pub fn alg8(r: i64, pw: &[u8], key: &[u8], salts: &[u8]) -> (Vec<u8>, Vec<u8>) {
+        let pw = trunc127(pw);
+        let mut u = alg2b(r, pw, &salts[..8], &[]);
+        u.extend_from_slice(salts);
+        let ue = cbc_enc(&alg2b(r, pw, &salts[8..16], &[]), &[0; 16], key);
+        (u, ue)
+    }
+    /// Algorithm 9: O and OE
+    pub fn alg9(r: i64, pw: &[u8], key: &[u8], salts: &[u8], u: &[u8]) -> (Vec<u8>, Vec<u8>) {
+        let pw = trunc127(pw);
+        let mut o = alg2b(r, pw, &salts[..8], u);
+        o.extend_from_slice(salts);
+        let oe = cbc_enc(&alg2b(r, pw, &salts[8..16], u), &[0; 16], key);
+        (o, oe)
+    }
+    /// Algorithm 10: Perms
+    pub fn alg10(p: i64, encrypt_metadata: bool, key: &[u8], rnd: &[u8]) -> Vec<u8> {
+        let mut b = vec![0u8; 16];
+        b[..4].copy_from_slice(&(p as u32).to_le_bytes());
+        b[4..8].copy_from_slice(&[0xff; 4]);
+        b[8] = if encrypt_metadata { b'T' } else { b'F' };
+        b[9] = b'a'; b[10] = b'd'; b[11] = b'b';
+        b[12..16].copy_from_slice(&rnd[..4]);
+        aes_enc_block(key, &b)
+    }
+    /// Algorithm 2.A (with 11/12/13): → (file key, is_owner)
+    pub fn alg2a(d: &EncDict, pw: &[u8], skip_alg13: bool) -> Option<(Vec<u8>, bool)> {
+        let pw = trunc127(pw);
+        if d.o.len() < 48 || d.u.len() < 48 || d.oe.len() != 32 || d.ue.len() != 32 { return None; }
+        let (key, owner) = if alg2b(d.r, pw, &d.o[32..40], &d.u[..48]) == d.o[..32] {          // Algorithm 12
+            (cbc_dec(&alg2b(d.r, pw, &d.o[40..48], &d.u[..48]), &[0; 16], &d.oe), true)
+        } else if alg2b(d.r, pw, &d.u[32..40], &[]) == d.u[..32] {                              // Algorithm 11
+            (cbc_dec(&alg2b(d.r, pw, &d.u[40..48], &[]), &[0; 16], &d.ue), false)
+        } else { return None; };
+        // Algorithm 13
+        if skip_alg13 { return Some((key, owner)); }
+        if d.perms.len() != 16 { return None; }
+        let b = aes_dec_block(&key, &d.perms);
+        if &b[9..12] != b"adb" { return None; }
+        if b[..4] != (d.p as u32).to_le_bytes() { return None; }
+        Some((key, owner))
+    }
+
+    /// Algorithm 1 / 1.A: key for one object
+    pub fn object_key(file_key: &[u8], id: ObjectId, aes: bool, v5: bool) -> Vec<u8> {
+        if v5 { return file_key.to_vec(); }
+        let mut input = file_key.to_vec();
+        input.extend_from_slice(&id.0.to_le_bytes()[..3]);
+        input.extend_from_slice(&id.1.to_le_bytes()[..2]);
+        if aes { input.extend_from_slice(b"sAlT"); }
+        let n = (file_key.len() + 5).min(16);
+        md5(&input)[..n].to_vec()
+    }
+
+    #[derive(Clone, Copy, PartialEq, Eq, Debug)]
+    pub enum Method { None, V2, AesV2, AesV3 }
+
+    pub fn encrypt_data(m: Method, file_key: &[u8], id: ObjectId, iv: &[u8], data: &[u8]) -> Vec<u8> {
+        match m {
+            Method::None => data.to_vec(),
+            Method::V2 => rc4(&object_key(file_key, id, false, false), data),
+            Method::AesV2 | Method::AesV3 => {
+                let key = object_key(file_key, id, true, m == Method::AesV3);
+                let n = 16 - data.len() % 16;
+                let mut padded = data.to_vec();
+                padded.extend(std::iter::repeat(n as u8).take(n));
+                let mut out = iv.to_vec();
+                out.extend(cbc_enc(&key, iv, &padded));
+                out
+            }
+        }
+    }
+    pub fn decrypt_data(m: Method, file_key: &[u8], id: ObjectId, data: &[u8]) -> Result<Vec<u8>, String> {
+        match m {
+            Method::None => Ok(data.to_vec()),
+            Method::V2 => Ok(rc4(&object_key(file_key, id, false, false), data)),
+            Method::AesV2 | Method::AesV3 => {
+                let key = object_key(file_key, id, true, m == Method::AesV3);
+                if data.len() < 32 || data.len() % 16 != 0 {
+                    if data.is_empty() { return Ok(vec![]); }
+                    return Err(format!("aes data length {}", data.len()));
+                }
+                let mut pt = cbc_dec(&key, &data[..16], &data[16..]);
+                let n = *pt.last().unwrap() as usize;
+                if n == 0 || n > 16 || pt[pt.len() - n..].iter().any(|b| *b as usize != n) { return Err("padding".into()); }
+                pt.truncate(pt.len() - n);
+                Ok(pt)
+            }
+        }
+    }
+
+    pub fn read_enc_dict(d: &Dictionary) -> Option<EncDict> {
+        let s = |k: &[u8]| d.get(k).ok().and_then(|o| o.as_str().ok()).map(|s| s.to_vec());
+        let i = |k: &[u8]| d.get(k).ok().and_then(|o| o.as_i64().ok());
+        let n = |k: &[u8]| d.get(k).ok().and_then(|o| o.as_name().ok()).map(|s| s.to_vec());
+        let mut cf = vec![];
+        if let Ok(Object::Dictionary(cfd)) = d.get(b"CF") {
+            for (name, f) in cfd.iter() {
+                if let Object::Dictionary(fd) = f {
+                    let cfm = fd.get(b"CFM").ok().and_then(|o| o.as_name().ok()).map(|s| s.to_vec()).unwrap_or(b"None".to_vec());
+                    cf.push((name.clone(), cfm));
+                }
+            }
+        }
+        Some(EncDict {
+            v: i(b"V").unwrap_or(0), r: i(b"R")?, length_bits: i(b"Length"), p: i(b"P")?,
+            encrypt_metadata: match d.get(b"EncryptMetadata") { Ok(Object::Boolean(b)) => *b, _ => true },
+            o: s(b"O")?, u: s(b"U")?, oe: s(b"OE").unwrap_or_default(), ue: s(b"UE").unwrap_or_default(),
+            perms: s(b"Perms").unwrap_or_default(), cf, stmf: n(b"StmF"), strf: n(b"StrF"),
+        })
+    }
+
+    /// ISO 32000 §7.6.5: which method a crypt filter name selects. `Identity` is predefined;
+    /// absent StmF / StrF default to Identity; V < 4 always uses RC4 with the file key (Algorithm 1).
+    pub fn method_of(d: &EncDict, name: Option<&[u8]>) -> Method {
+        if d.v < 4 { return Method::V2; }
+        match name {
+            None => Method::None,
+            Some(b"Identity") => Method::None,
+            Some(nm) => match d.cf.iter().find(|(k, _)| k == nm) {
+                Some((_, cfm)) => match cfm.as_slice() { b"V2" => Method::V2, b"AESV2" => Method::AesV2, b"AESV3" => Method::AesV3, _ => Method::None },
+                None => Method::None,
+            },
+        }
+    }
+
+    pub fn file_id0(doc: &Document) -> Vec<u8> {
+        match doc.trailer.get(b"ID") { Ok(Object::Array(a)) => match a.first() { Some(Object::String(s, _)) => s.clone(), _ => vec![] }, _ => vec![] }
+    }
+
+    /// authenticate a password against an encryption dictionary → (file key, is_owner)
+    pub fn authenticate(d: &EncDict, id0: &[u8], pw: &[u8], skip_alg13: bool) -> Option<(Vec<u8>, bool)> {
+        if d.r >= 5 { return alg2a(d, pw, skip_alg13); }
+        if let Some(k) = alg7(d, id0, pw) { return Some((k, true)); }
+        alg6(d, id0, pw).map(|k| (k, false))
+    }
+
+    fn stream_method(d: &EncDict, sd: &Dictionary) -> Method {
+        // §7.6.5 / Table 14: a Crypt filter in the stream's Filter array overrides StmF;
+        // its DecodeParms Name selects the crypt filter (default Identity).
+        let filters: Vec<Vec<u8>> = match sd.get(b"Filter") {
+            Ok(Object::Name(n)) => vec![n.clone()],
+            Ok(Object::Array(a)) => a.iter().filter_map(|o| o.as_name().ok().map(|n| n.to_vec())).collect(),
+            _ => vec![],
+        };
+        if let Some(pos) = filters.iter().position(|f| f == b"Crypt") {
+            let parms = match sd.get(b"DecodeParms") {
+                Ok(Object::Dictionary(p)) => Some(p),
+                Ok(Object::Array(a)) => a.get(pos).and_then(|o| o.as_dict().ok()),
+                _ => None,
+            };
+            let name = parms.and_then(|p| p.get(b"Name").ok()).and_then(|o| o.as_name().ok());
+            return method_of(d, Some(name.unwrap_or(b"Identity")));
+        }
+        method_of(d, d.stmf.as_deref())
+    }
+
+    /// which top-level traversal: strings everywhere (including stream dictionaries), stream data;
+    /// not: the encryption dictionary, XRef streams, the Metadata stream when EncryptMetadata is false
+    /// (its data is left as is; §7.6.5: "only the stream data").
+    pub enum Dir<'a> { Enc(&'a mut dyn FnMut() -> Vec<u8>), Dec }
+
+    pub fn crypt_object(d: &EncDict, file_key: &[u8], id: ObjectId, o: &mut Object, dir: &mut Dir, in_stream_dicts: bool) -> Result<(), String> {
+        match o {
+            Object::String(s, _) => {
+                let m = method_of(d, d.strf.as_deref());
+                *s = match dir { Dir::Enc(iv) => { let iv = if matches!(m, Method::AesV2 | Method::AesV3) { iv() } else { vec![] }; encrypt_data(m, file_key, id, &iv, s) }
+                                 Dir::Dec => decrypt_data(m, file_key, id, s)? };
+            }
+            Object::Array(a) => { for x in a.iter_mut() { crypt_object(d, file_key, id, x, dir, in_stream_dicts)?; } }
+            Object::Dictionary(dict) => { for (_, x) in dict.iter_mut() { crypt_object(d, file_key, id, x, dir, in_stream_dicts)?; } }
+            Object::Stream(st) => {
+                let is_xref = matches!(st.dict.get(b"Type"), Ok(Object::Name(n)) if n == b"XRef");
+                if is_xref { return Ok(()); }
+                if in_stream_dicts { for (_, x) in st.dict.iter_mut() { crypt_object(d, file_key, id, x, dir, in_stream_dicts)?; } }
+                let is_meta = matches!(st.dict.get(b"Type"), Ok(Object::Name(n)) if n == b"Metadata");
+                if is_meta && !d.encrypt_metadata { return Ok(()); }
+                let m = stream_method(d, &st.dict);
+                let new = match dir { Dir::Enc(iv) => { let iv = if matches!(m, Method::AesV2 | Method::AesV3) { iv() } else { vec![] }; encrypt_data(m, file_key, id, &iv, &st.content) }
+                                      Dir::Dec => decrypt_data(m, file_key, id, &st.content)? };
+                st.content = new;
+                st.dict.set("Length", st.content.len() as i64);
+            }
+            _ => {}
+        }
+        Ok(())
+    }
+
+    /// decrypt a whole document (as lopdf holds it in memory) with the reference handler.
+    /// `in_stream_dicts`: also treat strings inside stream dictionaries (ISO) — lopdf never does.
+    pub fn decrypt_document(doc: &Document, pw: &[u8], in_stream_dicts: bool, skip_alg13: bool) -> Result<(Document, bool), String> {
+        let enc_id = match doc.trailer.get(b"Encrypt") { Ok(Object::Reference(id)) => Some(*id), _ => None };
+        let enc_obj = match doc.trailer.get(b"Encrypt") {
+            Ok(Object::Reference(id)) => doc.objects.get(id).ok_or("Encrypt object missing")?.clone(),
+            Ok(o) => o.clone(),
+            Err(_) => return Err("not encrypted".into()),
+        };
+        let Object::Dictionary(ed) = enc_obj else { return Err("Encrypt not a dictionary".into()) };
+        let d = read_enc_dict(&ed).ok_or("bad encryption dictionary")?;
+        let id0 = file_id0(doc);
+        let (key, owner) = authenticate(&d, &id0, pw, skip_alg13).ok_or("password rejected")?;
+        let mut out = doc.clone();
+        for (id, o) in out.objects.iter_mut() {
+            if Some(*id) == enc_id { continue; }
+            crypt_object(&d, &key, *id, o, &mut Dir::Dec, in_stream_dicts).map_err(|e| format!("{:?}: {}", id, e))?;
+        }
+        out.trailer.remove(b"Encrypt");
+        if let Some(id) = enc_id { out.objects.remove(&id); }
+        Ok((out, owner))
+    }
+
+    /// what the reference writes into a document it encrypts
+    #[derive(Clone, Debug)]
+    pub struct EncParams {
+        pub v: i64, pub r: i64, pub key_bits: i64, pub p: i64, pub encrypt_metadata: bool,
+        pub cf: Vec<(Vec<u8>, Vec<u8>)>, pub stmf: Option<Vec<u8>>, pub strf: Option<Vec<u8>>,
+        pub owner: Option<Vec<u8>>, pub user: Vec<u8>, pub file_key: Vec<u8>,
+        pub write_length: bool, pub direct_encrypt_dict: bool, pub in_stream_dicts: bool,
+    }
+    /// encrypt a document as ISO 32000 prescribes; all randomness comes from `rnd`
+    pub fn encrypt_document(doc: &Document, q: &EncParams, rnd: &mut dyn FnMut(usize) -> Vec<u8>) -> (Document, EncDict, Vec<u8>) {
+        let id0 = file_id0(doc);
+        let n = match q.v { 1 => 5, 2 | 3 => (q.key_bits / 8) as usize, 4 => 16, _ => 32 };
+        let (o, u, oe, ue, perms, key);
+        if q.r <= 4 {
+            o = alg3(q.owner.as_deref(), &q.user, q.r, n);
+            key = alg2(&q.user, &o, q.p, &id0, q.r, n, q.encrypt_metadata);
+            let mut uu = alg4_5(&key, &id0, q.r);
+            if q.r >= 3 { uu.extend(rnd(16)); }
+            u = uu; oe = vec![]; ue = vec![]; perms = vec![];
+        } else {
+            key = q.file_key.clone();
+            let (a, b) = alg8(q.r, &q.user, &key, &rnd(16)); u = a; ue = b;
+            let owner = q.owner.clone().unwrap_or_else(|| q.user.clone());
+            let (a, b) = alg9(q.r, &owner, &key, &rnd(16), &u); o = a; oe = b;
+            perms = alg10(q.p, q.encrypt_metadata, &key, &rnd(4));
+        }
+        let d = EncDict { v: q.v, r: q.r, length_bits: Some(q.key_bits), p: q.p, encrypt_metadata: q.encrypt_metadata,
+                          o: o.clone(), u: u.clone(), oe: oe.clone(), ue: ue.clone(), perms: perms.clone(), cf: q.cf.clone(), stmf: q.stmf.clone(), strf: q.strf.clone() };
+        let mut out = doc.clone();
+        for (id, obj) in out.objects.iter_mut() {
+            let mut ivf = || rnd(16);
+            let mut dir = Dir::Enc(&mut ivf);
+            crypt_object(&d, &key, *id, obj, &mut dir, q.in_stream_dicts).expect("encrypt");
+        }
+        let mut ed = Dictionary::new();
+        ed.set("Filter", Object::Name(b"Standard".to_vec()));
+        ed.set("V", Object::Integer(q.v)); ed.set("R", Object::Integer(q.r));
+        if q.write_length { ed.set("Length", Object::Integer(q.key_bits)); }
+        ed.set("O", Object::String(o, lopdf::StringFormat::Hexadecimal));
+        ed.set("U", Object::String(u, lopdf::StringFormat::Hexadecimal));
+        ed.set("P", Object::Integer(q.p));
+        if q.v >= 4 {
+            let mut cf = Dictionary::new();
+            for (name, cfm) in &q.cf {
+                let mut f = Dictionary::new();
+                f.set("Type", Object::Name(b"CryptFilter".to_vec())); f.set("CFM", Object::Name(cfm.clone()));
+                f.set("AuthEvent", Object::Name(b"DocOpen".to_vec()));
+                f.set("Length", Object::Integer(if q.v == 5 { 32 } else { 16 }));
+                cf.set(name.clone(), Object::Dictionary(f));
+            }
+            ed.set("CF", Object::Dictionary(cf));
+            if let Some(x) = &q.stmf { ed.set("StmF", Object::Name(x.clone())); }
+            if let Some(x) = &q.strf { ed.set("StrF", Object::Name(x.clone())); }
+            if !q.encrypt_metadata { ed.set("EncryptMetadata", Object::Boolean(false)); }
+        }
+        if q.r >= 5 {
+            ed.set("OE", Object::String(oe, lopdf::StringFormat::Hexadecimal));
+            ed.set("UE", Object::String(ue, lopdf::StringFormat::Hexadecimal));
+            ed.set("Perms", Object::String(perms, lopdf::StringFormat::Hexadecimal));
+        }
+        if q.direct_encrypt_dict { out.trailer.set("Encrypt", Object::Dictionary(ed)); }
+        else {
+            out.max_id += 1;
+            let id = (out.max_id, 0);
+            out.objects.insert(id, Object::Dictionary(ed));
+            out.trailer.set("Encrypt", Object::Reference(id));
+        }
+        (out, d, key)
+    }
+}
+
+// ---------------------------------------------------------------------------------------------
+fn clean_opts() -> c05::GenOpts { c05::GenOpts { stream_dict_strings: false, nested_streams: false, meta_dicts: false, bad_length: false } }
+
+/// drop the constructs on which lopdf is known / expected to differ from ISO (each has its own witness)
+fn iso_clean_doc(r: &mut Rng) -> Document {
+    loop {
+        let d = c05::gen_doc(r, &clean_opts());
+        let txt = c05::show_doc(&d);
+        // no Crypt filters at all in the main streams (override handling is compared in C05 and in witness F-C06-d)
+        if txt.contains(" N4372797074") { continue; }
+        // Metadata *dictionaries* (not streams): lopdf exempts them, ISO does not — outside the main streams
+        if d.objects.values().any(has_meta_dict) { continue; }
+        return d;
+    }
+}
+
+fn has_meta_dict(o: &Object) -> bool {
+    match o {
+        Object::Array(a) => a.iter().any(has_meta_dict),
+        Object::Dictionary(d) => matches!(d.get(b"Type"), Ok(Object::Name(n)) if n == b"Metadata") || d.iter().any(|(_, v)| has_meta_dict(v)),
+        _ => false,
+    }
+}
+fn p_of(cfg: &Config) -> i64 { ((cfg.perms | 0xffff_ffff_ffff_f0c0) as i64) as i32 as i64 }
+fn cfm_of(k: u8) -> &'static [u8] { match k { b'R' => b"V2", b'A' => b"AESV2", b'B' => b"AESV3", _ => b"None" } }
+
+fn params_line(r: i64, n: usize, p: i64, em: bool, id0: &[u8]) -> String {
+    format!("{} {} {} {} {}", r, n, p as u32, em as u8, hex_tok(id0))
+}
+
+pub fn run(c: &mut Ctx) {
+    c.rule = "ISO-clean random documents (no strings in stream dictionaries, no Metadata dictionaries, no Crypt filters) x revisions 2-6 x key lengths 40..128 x \
+RC4 / AESV2 / AESV3 (V4 strings and streams independently) x EncryptMetadata x conforming permission words x passwords (ASCII, Latin-1, non-Latin for R>=5, up to 127 bytes) \
+x random file identifiers, salts and IVs. Direction A: lopdf encrypts, the Rust reference and the Lean spec recompute O, U, OE, UE, keys, ciphertexts and decrypt. \
+Direction B: the reference encrypts, lopdf authenticates / decrypts in memory and after save_to + load_mem. Non-trivial = the document holds at least one string or stream; distinct by document text.".into();
+    c.corr("c6_selftest".into(), "ok".into());
+    prim_cross(c);
+    let n = c.n(120, 1200);
+    for i in 0..n {
+        let Some(mut r) = c.case("a", i) else { continue };
+        let forced = match i { 0 => Some(Ver::V1), 1..=12 => Some(Ver::V2(40 + 8 * (i as usize - 1))), 13..=15 => Some(Ver::V4), 16 => Some(Ver::R5), 17 | 18 => Some(Ver::V5), _ => None };
+        dir_a(c, &mut r, forced, i);
+    }
+    let n = c.n(120, 1200);
+    for i in 0..n {
+        let Some(mut r) = c.case("b", i) else { continue };
+        dir_b(c, &mut r, i);
+    }
+    witnesses(c);
+}
+
+/// cross-check of the Lean spec primitives against the crates (validates the hypotheses' instances)
+fn prim_cross(c: &mut Ctx) {
+    let n = c.n(40, 300);
+    for i in 0..n {
+        let Some(mut r) = c.case("prim", i) else { continue };
+        let l = match r.below(6) { 0 => 0, 1 => 55, 2 => 56, 3 => 64, 4 => 119 + r.usize(20), _ => r.usize(300) };
+        let d = r.bytes(l);
+        c.corr(format!("c6_prim md5 {}", hex_tok(&d)), format!("ok {}", hex_tok(&refimpl::md5(&d))));
+        c.corr(format!("c6_prim sha256 {}", hex_tok(&d)), format!("ok {}", hex_tok(&refimpl::sha256(&d))));
+        c.corr(format!("c6_prim sha384 {}", hex_tok(&d)), format!("ok {}", hex_tok(&refimpl::sha384(&d))));
+        c.corr(format!("c6_prim sha512 {}", hex_tok(&d)), format!("ok {}", hex_tok(&refimpl::sha512(&d))));
+        let kl = if r.chance(1, 2) { 16 } else { 32 }; let k = r.bytes(kl); let b = r.bytes(16);
+        let e = refimpl::aes_enc_block(&k, &b);
+        c.corr(format!("c6_prim aesenc {} {}", hex_tok(&k), hex_tok(&b)), format!("ok {}", hex_tok(&e)));
+        c.corr(format!("c6_prim aesdec {} {}", hex_tok(&k), hex_tok(&e)), format!("ok {}", hex_tok(&b)));
+        if refimpl::aes_dec_block(&k, &e) != b { c.oracle_fail("aes-crate-not-inverse", "", json!({})); }
+        c.count("prim.cross");
+    }
+}
+
+fn gen_cfg_a(r: &mut Rng, forced: Option<Ver>) -> Config {
+    loop {
+        let mut cfg = c05::gen_config(r, forced.clone());
+        // stay out of registered-deviation territory: owner password present (F-C06-e), <= 127 bytes for R>=5 (F-C05-c),
+        // PDFDoc-encodable for R<=4 (F-C05-b), no Identity default filters (F-C06-b is about their naming)
+        if cfg.owner.is_empty() { cfg.owner = "own".into(); }
+        if cfg.revision() <= 4 && !(cfg.user.chars().all(|ch| (ch as u32) < 0x7f) && cfg.owner.chars().all(|ch| (ch as u32) < 0x7f)) { continue; }
+        if cfg.user.len() > 127 || cfg.owner.len() > 127 { continue; }
+        return cfg;
+    }
+}
+
+/// Direction A: lopdf encrypts; reference + Lean spec recompute and decrypt
+fn dir_a(c: &mut Ctx, r: &mut Rng, forced: Option<Ver>, idx: u64) {
+    let cfg = gen_cfg_a(r, forced);
+    let orig = iso_clean_doc(r);
+    let case = json!({"config": format!("{:?}", cfg), "doc": c05::show_doc(&orig)});
+    let state = match guard(|| cfg.make_state(&orig)) { Ok(Ok(s)) => s, other => { c.oracle_fail("encrypt-failed", &format!("{:?}", other.map(|x| x.map(|_| ()))), case); return; } };
+    let mut enc = orig.clone();
+    if !matches!(guard(|| enc.encrypt(&state)), Ok(Ok(()))) { c.oracle_fail("encrypt-failed", "Document::encrypt", case); return; }
+    c.nontrivial(&c05::show_doc(&orig));
+    let rev = state.revision();
+    c.count(&format!("a.rev{}", rev));
+    let owner_b = c05::sanitize(&enc, &cfg.owner).unwrap_or_default();
+    let user_b = c05::sanitize(&enc, &cfg.user).unwrap_or_default();
+    let id0 = refimpl::file_id0(&orig);
+    let p = p_of(&cfg);
+    // the encryption dictionary lopdf wrote, read by the reference
+    let Some(d) = enc.get_encrypted().ok().and_then(refimpl::read_enc_dict) else { c.oracle_fail("encdict-unreadable", "", case); return; };
+    if d.p != p { c.oracle_fail("p-value", &format!("P written {} expected {}", d.p, p), case.clone()); }
+    if d.v != (match cfg.ver { Ver::V1 => 1, Ver::V2(_) => 2, Ver::V4 => 4, _ => 5 }) || d.r != cfg.revision() { c.oracle_fail("v-r", "V / R entries", case.clone()); }
+    let n = d.key_bytes();
+    if rev <= 4 {
+        // O, U, key recomputed by the reference (Algorithms 3, 2, 4/5)
+        let o = refimpl::alg3(Some(&owner_b), &user_b, rev, n);
+        let key = refimpl::alg2(&user_b, &o, p, &id0, rev, n, d.encrypt_metadata);
+        let u = refimpl::alg4_5(&key, &id0, rev);
+        let ul = if rev == 2 { 32 } else { 16 };
+        if o != d.o { c.oracle_fail("O-differs", "O differs from Algorithm 3", case.clone()); }
+        if u[..ul] != d.u[..ul] { c.oracle_fail("U-differs", "U differs from Algorithm 4/5", case.clone()); }
+        if key != state.file_encryption_key() { c.oracle_fail("key-differs", "file key differs from Algorithm 2", case.clone()); }
+        // Lean spec on the same inputs, compared with lopdf's values
+        c.corr(format!("c6_dict {} {} {}", params_line(rev, n, p, d.encrypt_metadata, &id0), hex_tok(&owner_b), hex_tok(&user_b)),
+               format!("ok {} {} {}", hex_tok(state.owner_value()), hex_tok(&state.user_value()[..ul]), hex_tok(state.file_encryption_key())));
+        // authentication of a few passwords: lopdf vs Lean spec (and reference)
+        for pw in [cfg.user.clone(), cfg.owner.clone(), "nope".to_string(), String::new()] {
+            let b = c05::sanitize(&enc, &pw).unwrap_or_default();
+            let (lo, lu) = (enc.authenticate_owner_password(&pw).is_ok(), enc.authenticate_user_password(&pw).is_ok());
+            c.corr(format!("c6_auth {} {} {} {}", params_line(rev, n, p, d.encrypt_metadata, &id0), hex_tok(&d.o), hex_tok(&d.u), hex_tok(&b)), format!("ok {} {}", lo as u8, lu as u8));
+            if lo != refimpl::alg7(&d, &id0, &b).is_some() || lu != refimpl::alg6(&d, &id0, &b).is_some() { c.oracle_fail("authenticate-differs", "authenticate_* differs from Algorithms 6 / 7", json!({"pw": pw, "case": case})); }
+        }
+    } else {
+        let (u, ue) = refimpl::alg8(rev, &user_b, &cfg.file_key, &d.u[32..48]);
+        let (o, oe) = refimpl::alg9(rev, &owner_b, &cfg.file_key, &d.o[32..48], &u);
+        if u != d.u || ue != d.ue { c.oracle_fail("U-differs", "U / UE differ from Algorithm 8", case.clone()); }
+        if o != d.o || oe != d.oe { c.oracle_fail("O-differs", "O / OE differ from Algorithm 9", case.clone()); }
+        // Lean spec: R5 always, R6 (full Algorithm 2.B in Lean, slow) on a few cases
+        if rev == 5 || idx < 40 && idx % 2 == 0 || !c.quick() && idx % 8 == 0 {
+            c.corr(format!("c6_dict6 {} {} {} {} {} {}", rev, hex_tok(&cfg.file_key), hex_tok(&owner_b), hex_tok(&user_b), hex_tok(&d.u[32..48]), hex_tok(&d.o[32..48])),
+                   format!("ok {} {} {} {}", hex_tok(&d.u), hex_tok(&d.ue), hex_tok(&d.o), hex_tok(&d.oe)));
+            c.corr(format!("c6_key6 {} {} {} {} {} {}", rev, hex_tok(&d.o), hex_tok(&d.u), hex_tok(&d.oe), hex_tok(&d.ue), hex_tok(&owner_b)), format!("ok {}", hex_tok(&cfg.file_key)));
+            c.count("a.lean_spec_r56");
+        }
+        for pw in [cfg.user.clone(), cfg.owner.clone(), "nope".to_string()] {
+            let b = c05::sanitize(&enc, &pw).unwrap_or_default();
+            let (lo, lu) = (enc.authenticate_owner_password(&pw).is_ok(), enc.authenticate_user_password(&pw).is_ok());
+            let eo = refimpl::alg2b(rev, &b, &d.o[32..40], &d.u) == d.o[..32];
+            let eu = refimpl::alg2b(rev, &b, &d.u[32..40], &[]) == d.u[..32];
+            if lo != eo || lu != eu { c.oracle_fail("authenticate-differs", "authenticate_* differs from Algorithms 11 / 12", json!({"pw": pw, "case": case})); }
+        }
+    }
+    // per-object data: Lean spec vs lopdf's ciphertext for the first few strings / streams
+    let mut budget = 3;
+    for (id, o) in orig.objects.iter() {
+        if budget == 0 { break; }
+        let (pt, ct, is_str) = match (o, enc.objects.get(id)) {
+            (Object::String(a, _), Some(Object::String(b, _))) => (a.clone(), b.clone(), true),
+            (Object::Stream(a), Some(Object::Stream(b))) => (a.content.clone(), b.content.clone(), false),
+            _ => continue,
+        };
+        let is_meta = matches!(o, Object::Stream(s) if matches!(s.dict.get(b"Type"), Ok(Object::Name(n)) if n == b"Metadata" || n == b"XRef"));
+        if is_meta { continue; }
+        let m = refimpl::method_of(&d, if is_str { d.strf.as_deref() } else { d.stmf.as_deref() });
+        let mt = match m { refimpl::Method::V2 => "V2", refimpl::Method::AesV2 => "AESV2", refimpl::Method::AesV3 => "AESV3", _ => continue };
+        let iv = if mt == "V2" { vec![] } else { ct[..16].to_vec() };
+        c.corr(format!("c6_data {} {} {} {} {} {}", mt, hex_tok(state.file_encryption_key()), id.0, id.1, hex_tok(&iv), hex_tok(&pt)), format!("ok {}", hex_tok(&ct)));
+        if refimpl::encrypt_data(m, state.file_encryption_key(), *id, &iv, &pt) != ct { c.oracle_fail("ciphertext-differs", "ciphertext differs from Algorithm 1 / 1.A", json!({"id": format!("{:?}", id), "case": case})); }
+        budget -= 1;
+    }
+    // whole document: the reference opens lopdf's output with both passwords (Algorithm 13 apart: F-C06-c, witness)
+    for (who, pw, want_owner) in [("user", &user_b, false), ("owner", &owner_b, true)] {
+        match refimpl::decrypt_document(&enc, pw, true, true) {
+            Ok((dd, is_owner)) => {
+                if let Err(w) = c05::docs_same_mod_length(&orig, &dd) { c.oracle_fail("reference-decrypt-differs", &format!("{} password: {}", who, w), case.clone()); }
+                else { c.count(&format!("a.ref_decrypt_ok.{}", who)); }
+                if is_owner != want_owner && owner_b != user_b { c.oracle_fail("role-differs", &format!("{} password authenticated as owner={}", who, is_owner), case.clone()); }
+            }
+            Err(w) => c.oracle_fail("reference-rejects", &format!("{} password: {}", who, w), case.clone()),
+        }
+    }
+    if refimpl::authenticate(&d, &id0, b"certainly not the password", true).is_some() { c.oracle_fail("reference-accepts-wrong", "", case.clone()); }
+    c.sample(json!({"direction": "A", "rev": rev, "objects": orig.objects.len()}));
+}
+
+fn gen_params_b(r: &mut Rng, idx: u64) -> (refimpl::EncParams, String, String) {
+    let (v, rr, bits): (i64, i64, i64) = match if idx < 16 { idx % 8 } else { r.below(8) } {
+        0 => (1, 2, 40),
+        1 | 2 => (2, 3, 40 + 8 * r.below(12) as i64),
+        3 | 4 => (4, 4, 128),
+        5 => (5, 5, 256),
+        _ => (5, 6, 256),
+    };
+    let r6 = rr >= 5;
+    let mut cf = vec![]; let (mut stmf, mut strf) = (None, None);
+    if v == 4 {
+        let k1: &[u8] = if r.chance(1, 2) { b"V2" } else { b"AESV2" }; let k2: &[u8] = if r.chance(1, 2) { b"V2" } else { b"AESV2" };
+        cf.push((b"StdCF".to_vec(), k1.to_vec())); stmf = Some(b"StdCF".to_vec());
+        if k1 == k2 { strf = Some(b"StdCF".to_vec()); } else { cf.push((b"StrCF".to_vec(), k2.to_vec())); strf = Some(b"StrCF".to_vec()); }
+    } else if v == 5 { cf.push((b"StdCF".to_vec(), b"AESV3".to_vec())); stmf = Some(b"StdCF".to_vec()); strf = Some(b"StdCF".to_vec()); }
+    let mut perms = 0u64; for b in c05::PERM_BITS { if r.chance(1, 2) { perms |= 1 << b; } }
+    let p = ((perms | 0xffff_ffff_ffff_f0c0) as i64) as i32 as i64;
+    let mut user; let mut owner;
+    loop {
+        user = c05::gen_password(r, r6); owner = c05::gen_password(r, r6);
+        if owner.is_empty() || owner == user { owner = format!("{}#o", user); }
+        // an empty user password on R5/R6 makes load_mem itself fail (F-C06-c): witnessed separately
+        if r6 && user.is_empty() { user = "u".into(); }
+        if !r6 && !(user.is_ascii() && owner.is_ascii()) { continue; }
+        if user.len() > 127 || owner.len() > 127 { continue; }
+        break;
+    }
+    (refimpl::EncParams { v, r: rr, key_bits: bits, p, encrypt_metadata: v < 4 || r.chance(1, 2), cf, stmf, strf,
+        owner: Some(owner.as_bytes().to_vec()), user: user.as_bytes().to_vec(), file_key: if r6 { r.bytes(32) } else { vec![] },
+        write_length: v == 2 || v == 4, direct_encrypt_dict: false, in_stream_dicts: true }, user, owner)
+}
+
+/// Direction B: the reference encrypts; lopdf authenticates and decrypts (in memory and from a file)
+fn dir_b(c: &mut Ctx, r: &mut Rng, idx: u64) {
+    let (q, user, owner) = gen_params_b(r, idx);
+    let orig = iso_clean_doc(r);
+    let mut rr = r.clone();
+    let (enc, d, key) = refimpl::encrypt_document(&orig, &q, &mut |n| rr.bytes(n));
+    let case = json!({"params": format!("{:?}", q), "doc": c05::show_doc(&orig)});
+    c.nontrivial(&c05::show_doc(&enc));
+    c.count(&format!("b.rev{}", q.r));
+    // sanity of the reference itself: it opens its own output with both passwords
+    for pw in [&q.user, q.owner.as_ref().unwrap()] {
+        if !matches!(refimpl::decrypt_document(&enc, pw, true, false), Ok((ref dd, _)) if c05::docs_same_mod_length(&orig, dd).is_ok()) { c.oracle_fail("reference-self-roundtrip", "", case.clone()); return; }
+    }
+    // the model of lopdf's code on the same input (user password): correspondence with the real decrypt
+    let run = |c: &mut Ctx, doc: &Document, pw: &str, label: &str| -> Result<Document, String> {
+        let mut dd = doc.clone();
+        let res = guard(|| dd.decrypt(pw));
+        let pw_b = c05::sanitize(doc, pw).unwrap_or_default();
+        let tbl = c05::h2b_table(q.r, &d.o, &d.u, &[pw_b.clone()]);
+        let req = format!("c5_decdoc {} {} {}", c05::show_doc(doc), hex_tok(&pw_b), tbl);
+        match res {
+            Ok(Ok(())) => { c.corr(req, format!("ok {}", c05::show_doc(&dd))); Ok(dd) }
+            Ok(Err(e)) => { let cls = c05::err_class(&e); c.corr(req, format!("err {}", cls)); Err(cls) }
+            Err((site, msg)) => { c.oracle_fail(&format!("panic@{}", site), &msg, json!({"label": label})); Err("panic".into()) }
+        }
+    };
+    // authentication
+    let au = enc.authenticate_user_password(&user).is_ok(); let ao = enc.authenticate_owner_password(&owner).is_ok();
+    if !au { c.oracle_fail("lopdf-rejects-user", "authenticate_user_password rejects the user password of a reference-encrypted document", case.clone()); }
+    if !ao { c.oracle_fail("lopdf-rejects-owner", "authenticate_owner_password rejects the owner password of a reference-encrypted document", case.clone()); }
+    if enc.authenticate_password("definitely wrong").is_ok() { c.oracle_fail("lopdf-accepts-wrong", "", case.clone()); }
+    // decryption; R<=4 owner = F-C05-a territory, R>=5 user = F-C06-c territory (Perms check on ciphertext): counted, witnessed separately
+    if q.r <= 4 {
+        match run(c, &enc, &user, "user") {
+            Ok(dd) => if let Err(w) = c05::docs_same_mod_length(&orig, &dd) { c.oracle_fail("lopdf-decrypt-differs", &w, case.clone()); } else { c.count("b.lopdf_decrypt_ok.user"); },
+            Err(cls) => c.oracle_fail("lopdf-decrypt-fails", &cls, case.clone()),
+        }
+        let _ = run(c, &enc, &owner, "owner"); c.count("b.owner_r234_corr_only");
+    } else {
+        match run(c, &enc, &owner, "owner") {
+            Ok(dd) => if let Err(w) = c05::docs_same_mod_length(&orig, &dd) { c.oracle_fail("lopdf-decrypt-differs", &w, case.clone()); } else { c.count("b.lopdf_decrypt_ok.owner"); },
+            Err(cls) => c.oracle_fail("lopdf-decrypt-fails", &cls, case.clone()),
+        }
+        match run(c, &enc, &user, "user") { Ok(_) => c.count("b.r56_user_ok_unexpected"), Err(_) => c.count("b.r56_user_rejected_known") }
+    }
+    if key != (if q.r <= 4 { refimpl::alg2(&q.user, &d.o, q.p, &refimpl::file_id0(&orig), q.r, d.key_bytes(), q.encrypt_metadata) } else { q.file_key.clone() }) { c.oracle_fail("reference-key", "", case.clone()); }
+    // through a file: lopdf's writer carries the reference-encrypted objects, lopdf's loader reads them back
+    if idx % 2 == 0 {
+        let mut bytes = vec![]; let mut tosave = enc.clone();
+        if matches!(guard(|| tosave.save_to(&mut bytes)), Ok(Ok(()))) {
+            match guard(|| Document::load_mem(&bytes)) {
+                Ok(Ok(mut loaded)) => {
+                    let pw = if q.r <= 4 { &user } else { &owner };
+                    let ok = !loaded.is_encrypted() || loaded.decrypt(pw).is_ok();
+                    if !ok { c.oracle_fail("file-decrypt-fails", "decrypt after load_mem failed", case.clone()); }
+                    else {
+                        let mut bad = None;
+                        for (id, o) in orig.objects.iter() {
+                            if matches!(o, Object::Stream(s) if matches!(s.dict.get(b"Type"), Ok(Object::Name(n)) if n == b"XRef")) || matches!(o, Object::Dictionary(dd) if matches!(dd.get(b"Type"), Ok(Object::Name(n)) if n == b"XRef")) { continue; }
+                            match loaded.objects.get(id) { Some(l) if c05::same_mod_length(o, l) => {}, other => { bad = Some(format!("{:?}: {} vs {:?}", id, show_obj(o), other.map(show_obj))); break; } }
+                        }
+                        if let Some(w) = bad { c.oracle_fail("file-decrypt-differs", &w, case.clone()); } else { c.count("b.file_roundtrip_ok"); }
+                    }
+                }
+                other => c.oracle_fail("file-load-fails", &format!("{:?}", other.map(|x| x.map(|_| ()))), case.clone()),
+            }
+        }
+    }
+    c.sample(json!({"direction": "B", "rev": q.r, "v": q.v, "bits": q.key_bits}));
+}
+
+// ------------------------------------------------------------------ witnesses of the registered deviations
+fn wdoc() -> Document {
+    let mut doc = Document::with_version("1.7");
+    doc.objects.insert((1, 0), Object::String(b"The quick brown fox jumps over the lazy dog".to_vec(), StringFormat::Literal));
+    let mut sd = Dictionary::new(); sd.set("Note", Object::String(b"a string inside a stream dictionary".to_vec(), StringFormat::Literal));
+    doc.objects.insert((2, 0), Object::Stream(Stream::new(sd, b"stream content 0123456789 0123456789".to_vec())));
+    doc.max_id = 2;
+    doc.trailer.set("Root", Object::Reference((1, 0)));
+    doc.trailer.set("ID", Object::Array(vec![Object::String(vec![7u8; 16], StringFormat::Hexadecimal), Object::String(vec![9u8; 16], StringFormat::Hexadecimal)]));
+    doc
+}
+fn wparams(v: i64, r: i64) -> refimpl::EncParams {
+    let cf = if v == 4 { vec![(b"StdCF".to_vec(), b"AESV2".to_vec())] } else if v == 5 { vec![(b"StdCF".to_vec(), b"AESV3".to_vec())] } else { vec![] };
+    let f = if v >= 4 { Some(b"StdCF".to_vec()) } else { None };
+    refimpl::EncParams { v, r, key_bits: match v { 1 => 40, 2 => 128, 4 => 128, _ => 256 }, p: -3904, encrypt_metadata: true, cf, stmf: f.clone(), strf: f,
+        owner: Some(b"owner".to_vec()), user: b"user".to_vec(), file_key: (0..32).collect(), write_length: v == 2 || v == 4, direct_encrypt_dict: false, in_stream_dicts: true }
+}
+fn strip_note(d: &Document) -> Document { let mut d = d.clone(); if let Some(Object::Stream(s)) = d.objects.get_mut(&(2, 0)) { s.dict.remove(b"Note"); } d }
+
+fn witnesses(c: &mut Ctx) {
+    let mut seed = 1u64; let mut rnd = move |n: usize| -> Vec<u8> { (0..n).map(|_| { seed = seed.wrapping_mul(6364136223846793005).wrapping_add(1442695040888963407); (seed >> 33) as u8 }).collect() };
+    // F-C06-a: strings inside stream dictionaries are not decrypted (nor encrypted) by lopdf
+    if let Some(_r) = c.case("witness", 0) {
+        let orig = wdoc(); let (enc, _, _) = refimpl::encrypt_document(&orig, &wparams(2, 3), &mut rnd);
+        let mut d = enc.clone(); let ok = d.decrypt("user").is_ok();
+        let note = |x: &Document| match x.objects.get(&(2, 0)) { Some(Object::Stream(s)) => s.dict.get(b"Note").ok().and_then(|o| o.as_str().ok()).map(|s| s.to_vec()), _ => None };
+        let content_ok = matches!((d.objects.get(&(2, 0)), orig.objects.get(&(2, 0))), (Some(Object::Stream(a)), Some(Object::Stream(b))) if a.content == b.content);
+        let repro_dec = ok && content_ok && note(&d) != note(&orig) && note(&d) == note(&enc);
+        // and the other way round: lopdf leaves them in clear text
+        let cfg = Config { ver: Ver::V2(128), encrypt_metadata: true, filters: vec![], stmf: vec![], strf: vec![], file_key: vec![], owner: "owner".into(), user: "user".into(), perms: 3900 };
+        let mut e2 = orig.clone(); let st = cfg.make_state(&orig).unwrap(); e2.encrypt(&st).unwrap();
+        let repro_enc = note(&e2) == note(&orig);
+        c.witness("F-C06-a", repro_dec && repro_enc, &format!("reference-encrypted V2/R3 document: lopdf decrypt ok={}, stream data restored={}, /Note string left as ciphertext={}; lopdf-encrypted document keeps /Note in clear text={}", ok, content_ok, repro_dec, repro_enc));
+    }
+    // F-C06-c: Perms (Algorithm 10 / 13)
+    if let Some(_r) = c.case("witness", 1) {
+        let orig = strip_note(&wdoc());
+        let (enc, _, _) = refimpl::encrypt_document(&orig, &wparams(5, 6), &mut rnd);
+        let auth = enc.authenticate_user_password("user").is_ok();
+        let mut d = enc.clone(); let user = d.decrypt("user");
+        let mut d2 = enc.clone(); let owner_ok = d2.decrypt("owner").is_ok() && c05::docs_same_mod_length(&orig, &d2).is_ok();
+        // lopdf's own Perms is the plaintext block
+        let cfg = Config { ver: Ver::V5, encrypt_metadata: true, filters: vec![(b"StdCF".to_vec(), b'B')], stmf: b"StdCF".to_vec(), strf: b"StdCF".to_vec(), file_key: (0..32).collect(), owner: "owner".into(), user: "user".into(), perms: 3900 };
+        let st = cfg.make_state(&orig).unwrap();
+        let plain = &st.permission_encrypted()[9..12] == b"adb";
+        let mut e2 = orig.clone(); e2.encrypt(&st).unwrap();
+        let strict = refimpl::decrypt_document(&e2, b"user", true, false).is_err() && refimpl::decrypt_document(&e2, b"user", true, true).is_ok();
+        // the commonest kind of protected file: empty user password, owner password set -> the loader itself fails
+        let mut q0 = wparams(5, 6); q0.user = vec![];
+        let (enc0, _, _) = refimpl::encrypt_document(&orig, &q0, &mut rnd);
+        let mut bytes = vec![]; let mut ts = enc0.clone(); let _ = ts.save_to(&mut bytes);
+        let load = Document::load_mem(&bytes);
+        let load_fails = load.is_err();
+        c.witness("F-C06-c", auth && user.is_err() && owner_ok && plain && strict && load_fails,
+            &format!("conforming R6 document: authenticate_user_password ok={}, decrypt(\"user\") = {:?}, decrypt(\"owner\") restores={}; Perms written by lopdf is the unencrypted block (bytes 9..12 = \"adb\")={}; strict reference (Algorithm 13) rejects lopdf's output={}; load_mem of a conforming R6 file with an empty user password fails={}", auth, user.err().map(|e| c05::err_class(&e)), owner_ok, plain, strict, load_fails));
+    }
+    // F-C06-b: StrF / StmF = /Identity (predefined, not listed in CF) is treated as RC4
+    if let Some(_r) = c.case("witness", 2) {
+        let orig = strip_note(&wdoc()); let mut q = wparams(4, 4); q.strf = Some(b"Identity".to_vec());
+        let (enc, _, _) = refimpl::encrypt_document(&orig, &q, &mut rnd);
+        let mut d = enc.clone(); let ok = d.decrypt("user").is_ok();
+        let s_ok = matches!((d.objects.get(&(1, 0)), orig.objects.get(&(1, 0))), (Some(Object::String(a, _)), Some(Object::String(b, _))) if a == b);
+        let st_ok = matches!((d.objects.get(&(2, 0)), orig.objects.get(&(2, 0))), (Some(Object::Stream(a)), Some(Object::Stream(b))) if a.content == b.content);
+        c.witness("F-C06-b", ok && !s_ok && st_ok, &format!("V4, StmF=StdCF (AESV2), StrF=/Identity: decrypt ok={}, stream restored={}, plaintext string kept={}", ok, st_ok, s_ok));
+    }
+    // F-C06-d: Crypt filter without DecodeParms = Identity per ISO; lopdf applies the default stream filter
+    if let Some(_r) = c.case("witness", 3) {
+        let mut orig = strip_note(&wdoc());
+        if let Some(Object::Stream(s)) = orig.objects.get_mut(&(2, 0)) { s.dict.set("Filter", Object::Name(b"Crypt".to_vec())); }
+        let (enc, _, _) = refimpl::encrypt_document(&orig, &wparams(4, 4), &mut rnd);
+        let mut d = enc.clone(); let res = d.decrypt("user");
+        let st_ok = matches!((d.objects.get(&(2, 0)), orig.objects.get(&(2, 0))), (Some(Object::Stream(a)), Some(Object::Stream(b))) if a.content == b.content);
+        let failed = res.is_err();
+        c.witness("F-C06-d", failed || !st_ok, &format!("V4 stream with /Filter /Crypt and no DecodeParms (Identity, stored unencrypted): lopdf decrypt = {:?} (the default AESV2 filter is applied to it), stream content preserved={}", res.err().map(|e| c05::err_class(&e)), st_ok));
+    }
+    // F-C06-e: an empty owner password is not replaced by the user password (Algorithm 3 step a)
+    if let Some(_r) = c.case("witness", 4) {
+        let orig = strip_note(&wdoc());
+        let cfg = Config { ver: Ver::V2(128), encrypt_metadata: true, filters: vec![], stmf: vec![], strf: vec![], file_key: vec![], owner: "".into(), user: "secret".into(), perms: 3900 };
+        let st = cfg.make_state(&orig).unwrap();
+        let iso = refimpl::alg3(None, b"secret", 3, 16);
+        let differs = st.owner_value() != &iso[..];
+        let mut e = orig.clone(); e.encrypt(&st).unwrap();
+        // anyone gets in with the empty password through Algorithm 7
+        let d = e.get_encrypted().ok().and_then(refimpl::read_enc_dict).unwrap();
+        let open = matches!(refimpl::decrypt_document(&e, b"", true, false), Ok((ref dd, true)) if c05::docs_same_mod_length(&orig, dd).is_ok());
+        let _ = d;
+        c.witness("F-C06-e", differs && open, &format!("V2/R3, owner=\"\", user=\"secret\": O differs from Algorithm 3 with absent owner={}, the reference opens the document with the empty password (as owner)={}", differs, open));
+    }
+    // F-C06-f: P is re-normalised before Algorithm 2
+    if let Some(_r) = c.case("witness", 5) {
+        let orig = strip_note(&wdoc()); let mut q = wparams(2, 3); q.p = -1;
+        let (enc, _, _) = refimpl::encrypt_document(&orig, &q, &mut rnd);
+        let au = enc.authenticate_user_password("user").is_ok();
+        let mut q2 = wparams(2, 3); q2.p = -4; let (enc2, _, _) = refimpl::encrypt_document(&orig, &q2, &mut rnd);
+        let au2 = enc2.authenticate_user_password("user").is_ok();
+        c.witness("F-C06-f", !au && au2, &format!("V2/R3 reference document with P = -1: authenticate_user_password(\"user\") ok={}; same with P = -4 (what lopdf normalises -1 to) ok={}", au, au2));
+    }
+    // F-C06-g: Encrypt as a direct dictionary in the trailer
+    if let Some(_r) = c.case("witness", 6) {
+        let orig = strip_note(&wdoc()); let mut q = wparams(2, 3); q.direct_encrypt_dict = true;
+        let (enc, _, _) = refimpl::encrypt_document(&orig, &q, &mut rnd);
+        let is_enc = enc.is_encrypted(); let mut d = enc.clone(); let res = d.decrypt("user");
+        c.witness("F-C06-g", !is_enc && res.is_err(), &format!("trailer /Encrypt given as a direct dictionary: is_encrypted()={}, decrypt = {:?}", is_enc, res.err().map(|e| c05::err_class(&e))));
+    }
+    // F-C06-i: V4 without the (optional, "only if V is 2 or 3") top-level Length: key length taken as 40 bits
+    if let Some(_r) = c.case("witness", 8) {
+        let orig = strip_note(&wdoc()); let mut q = wparams(4, 4); q.write_length = false;
+        let (enc, _, _) = refimpl::encrypt_document(&orig, &q, &mut rnd);
+        let au = enc.authenticate_user_password("user").is_ok();
+        let mut q2 = wparams(4, 4); q2.write_length = true; let (enc2, _, _) = refimpl::encrypt_document(&orig, &q2, &mut rnd);
+        let au2 = enc2.authenticate_user_password("user").is_ok();
+        c.witness("F-C06-i", !au && au2, &format!("V4/AESV2 document without top-level /Length: authenticate_user_password ok={}; with /Length 128 ok={}", au, au2));
+    }
+    // F-C06-h: /Length 256 next to V 5 (written by common producers) is rejected
+    if let Some(_r) = c.case("witness", 7) {
+        let orig = strip_note(&wdoc()); let mut q = wparams(5, 6); q.write_length = true;
+        let (enc, _, _) = refimpl::encrypt_document(&orig, &q, &mut rnd);
+        let mut d = enc.clone(); let res = d.decrypt("owner");
+        let mut q2 = wparams(5, 6); q2.write_length = false; let (enc2, _, _) = refimpl::encrypt_document(&orig, &q2, &mut rnd);
+        let mut d2 = enc2.clone(); let ok2 = d2.decrypt("owner").is_ok();
+        c.witness("F-C06-h", res.is_err() && ok2, &format!("R6 document with /Length 256: decrypt(\"owner\") = {:?}; without the Length entry ok={}", res.err().map(|e| c05::err_class(&e)), ok2));
+    }
+}
